@@ -93,7 +93,8 @@ for ext in (1, 2, 3):
     add("VerifC44InfoRequest", T, kind=ext % 2, pay=4, **base(ext=ext, path=1, seg=(2, 0, 0)))
     add("VerifC44InfoRequest", T, kind=1 - ext % 2, pay=4, **base(ext=ext, dst=1, src=1, pfam=1))
 add("VerifC44InfoRequest", T, kind=0, pay=32, **base(path=1, seg=(2, 0, 0)))
-add("VerifC44InfoRequest", T, kind=0, pay=0, cksum=1, **base())
+# (cksum=1, clause answer-scmp-checksum-valid, is not part of a registered tier: single z3 queries
+#  of that clause run into the 300 s timeout; run it by hand with -params cksum=1)
 add("VerifC44InfoRequestVacuity", Q, must_fail=True, disp=1, ufam=0, pfam=0, path=0, s0=0, s1=0, s2=0)
 
 # ---- echo / traceroute replies
@@ -136,7 +137,7 @@ for qext in (1, 2, 3):
 for etype in (1, 2, 4, 5, 6):
     for quote in range(9):
         err(T, etype, quote)
-        if etype in (1, 5):
+        if etype == 1:
             (ufam, dst) = ((1, 0), (0, 1), (1, 1))[(etype + quote) % 3]
             err(T, etype, quote, ufam=ufam, dst=dst, qdst=dst, qsrc=dst)
     (p, seg) = PATHS_T[1 + etype % 6]
@@ -197,7 +198,7 @@ spec = {
         "layout bounds: the next-header chain, HdrLen, address types/lengths, path type and SegLens, SCMP type, UDP Length field and extension length (one line) are enumerated per instance (see harness/c44/gen_spec.py); quick: paths empty / 2 / 1+1 hops / one-hop / EPIC 2, payload <= 4, each quoted-L4 class once; thorough: up to 2+1+2 hops, EPIC 1+1+1, payload <= 32, 5 error types x 9 quote classes, extension chains on outer and quoted packet",
         "unstructured datagrams (all bytes symbolic) only up to 40 bytes",
         "Serve / parseUnderlayAddr / IP_PKTINFO control-message parsing (real sockets)",
-        "the SCMP checksum of answers is asserted for one thorough instance only (solver cost); checksum computation is C20",
+        "the SCMP checksum of answers is not asserted in the registered tiers (clause answer-scmp-checksum-valid exists behind -params cksum=1, but its z3 queries run into the query timeout); checksum computation is C20",
     ],
     "stubs": [
         "pkg/log: no-op",
